@@ -833,15 +833,34 @@ def check_construct(ctx, case):
 
     n, r, dt = case["n"], case["rows"], case["dtype"]
     m = Model.construct(n, r)
+    inp = np.array(r, dtype=dt) if r else np.zeros((0, 3), dtype=dt)
+    inp_before = inp.copy()
     try:
-        if r:
-            bl = BondList(n, np.array(r, dtype=dt))
-        else:
-            bl = BondList(n, np.zeros((0, 3), dtype=dt))
+        bl = BondList(n, inp)
     except Exception as e:  # noqa: BLE001
         ctx.violation("construct|unexpected_%s" % type(e).__name__, "legal construction input raised", case,
                       "success", type(e).__name__)
         return
+    # input aliasing: construction must not modify the caller's array, and changing the caller's
+    # array (or an array handed out by as_array / get_bonds / get_all_bonds) afterwards must not
+    # change the list
+    if not np.array_equal(inp, inp_before):
+        ctx.violation("construct|input_modified", "the constructor changed the caller's bond array", case,
+                      inp_before.tolist(), inp.tolist())
+    if inp.size:
+        inp[...] = 0
+    handed = bl.as_array()
+    if handed.size:
+        handed[...] = 7
+    if n:
+        gb = bl.get_bonds(0)
+        for a in gb:
+            if a.size:
+                a[...] = 3
+        ab = bl.get_all_bonds()
+        for a in ab:
+            if a.size:
+                a[...] = 5
     bad = observe(bl, m)
     ctx.outcome(m.key())
     if bad:
